@@ -80,12 +80,17 @@ package snowflake_server
 //
 // The carrier handler registers this carrier's ClientID with this request's sanitised client_ip.
 //@ func turbotunnelMode(conn net.Conn, addr net.Addr, pconn *turbotunnel.QueuePacketConn) (err error)
-//@   props C18, C05
 //@   requires addr != nil && conn != nil
 //@   assumes pconn != nil
 //@   flag nosafety
+//   The 8-byte ClientID prefix is read COMPLETELY (io.ReadFull on this carrier, into the whole array) before it is
+//   used: a carrier may deliver the prefix in several pieces.
+//@   props C18, C05, C09
+//@   at call ReadFull assert {client-id-read-in-full-from-this-carrier} arg0 == conn && len(arg1) == 8
+//@   after call ReadFull ghost idComplete = ret1 == nil && ret0 == 8
 //@   at call Set assert {registers-this-request-address} arg2 == addr
 //@   at call Set assert {registers-the-id-just-read} arg1 == clientID
+//@   at call Set assert {id-complete-before-use} calls(ReadFull) == 1 && idComplete
 //
 //@ func (handler *httpHandler) ServeHTTP(w http.ResponseWriter, r *http.Request)
 //@   props C18, C05
@@ -99,6 +104,7 @@ package snowflake_server
 //
 // C05: packets are bound to sessions by the ClientID this carrier presented.
 //@ ghost var tokenOK bool
+//@ ghost var idComplete bool
 //
 //@ func turbotunnelMode$1()
 //@   props C05
